@@ -559,3 +559,46 @@ def validate_trace(ctx, name, module, events, constants=None, chunk=20000, worke
         for r in cases_from(res["out"], "NOTE"):
             noted.append(r["id"])
     return rejected, noted
+
+
+def record_events(binp, kind, n, seed, name, extra=None, timeout=1800):
+    """Runs a seeded random driver of the harness and returns the recorded events (list of dicts).
+    A driver that dies is a tool error here; drivers catch panics of the code under test themselves and
+    record them as events."""
+    wd = os.path.join(WORK, "record")
+    os.makedirs(wd, exist_ok=True)
+    out = os.path.join(wd, name + ".ndjson")
+    if os.path.exists(out):
+        os.remove(out)
+    args = ["record", kind, str(n), str(seed), out] + (extra or [])
+    p = subprocess.run([binp] + args, env=cargo_env(), stdout=subprocess.PIPE, stderr=subprocess.PIPE, timeout=timeout)
+    events = []
+    if os.path.exists(out):
+        for line in open(out):
+            line = line.strip()
+            if line:
+                try:
+                    events.append(json.loads(line))
+                except ValueError:
+                    pass
+    if p.returncode != 0:
+        # the driver died (abort/UB check/signal): report as an event so that the trace spec rejects it
+        events.append({"id": len(events) + 10 ** 9, "ev": "abort", "rc": p.returncode,
+                       "after_events": len(events), "stderr": p.stderr.decode(errors="replace")[-300:]})
+    return events
+
+
+def record_parallel(binp, kind, n, seed, name, jobs=8, extra=None):
+    """Several seeded drivers in parallel (seed+j); ids are made unique."""
+    from concurrent.futures import ThreadPoolExecutor
+    per = max(1, n // jobs)
+    with ThreadPoolExecutor(max_workers=jobs) as ex:
+        futs = [ex.submit(record_events, binp, kind, per, seed + j, f"{name}-{j}", extra) for j in range(jobs)]
+        parts = [f.result() for f in futs]
+    events = []
+    for j, part in enumerate(parts):
+        for e in part:
+            e["id"] = len(events)
+            e["driver_seed"] = seed + j
+            events.append(e)
+    return events
